@@ -113,6 +113,19 @@ func (d *bruteD) eq(tu int) float64 {
 	return 0
 }
 
+// symmetric reports whether the distribution is symmetric about its mean
+// n1·n2/2 (always the case without ties; with ties only for symmetric tie
+// vectors).
+func (d *bruteD) symmetric(n1n2 int) bool {
+	for k, v := range d.counts {
+		o, ok := d.counts[2*n1n2-k]
+		if !ok || o.Cmp(v) != 0 {
+			return false
+		}
+	}
+	return true
+}
+
 func (c *distCache) get(x1, x2 []float64) *bruteD {
 	pooled := append(append([]float64{}, x1...), x2...)
 	sort.Float64s(pooled)
@@ -146,7 +159,27 @@ func tieVector(x1, x2 []float64) []int {
 	return t
 }
 
+// c11CheckPair returns a message and the signature of the failing clause.
+// The signature "two-sided-asymmetric-ties" is used only when the failing
+// clause is the two-sided p-value (or its invariance under swapping) AND the
+// exact distribution is not symmetric about its mean.
 func c11CheckPair(x1, x2 []float64, cache *distCache) string {
+	m, _ := c11CheckPairSig(x1, x2, cache)
+	return m
+}
+
+func c11CheckPairSig(x1, x2 []float64, cache *distCache) (string, string) {
+	msg, clause := c11CheckPair0(x1, x2, cache)
+	if msg == "" {
+		return "", ""
+	}
+	if clause == "two-sided" && !cache.get(x1, x2).symmetric(len(x1)*len(x2)) {
+		return msg, "two-sided-asymmetric-ties"
+	}
+	return msg, "utest-" + clause
+}
+
+func c11CheckPair0(x1, x2 []float64, cache *distCache) (string, string) {
 	d := cache.get(x1, x2)
 	tu := twoU(x1, x2)
 	allEqual := len(tieVector(x1, x2)) == 1
@@ -155,18 +188,18 @@ func c11CheckPair(x1, x2 []float64, cache *distCache) string {
 		r, err := MannWhitneyUTest(x1, x2, alt)
 		if allEqual {
 			if err != ErrSamplesEqual {
-				return fmt.Sprintf("U(%v,%v): all values equal but err=%v result=%v", x1, x2, err, r)
+				return fmt.Sprintf("U(%v,%v): all values equal but err=%v result=%v", x1, x2, err, r), "error-cases"
 			}
 			continue
 		}
 		if err != nil {
-			return fmt.Sprintf("U(%v,%v,%v): unexpected error %v", x1, x2, alt, err)
+			return fmt.Sprintf("U(%v,%v,%v): unexpected error %v", x1, x2, alt, err), "error-cases"
 		}
 		if r.N1 != len(x1) || r.N2 != len(x2) {
-			return fmt.Sprintf("U(%v,%v): sizes reported %d,%d", x1, x2, r.N1, r.N2)
+			return fmt.Sprintf("U(%v,%v): sizes reported %d,%d", x1, x2, r.N1, r.N2), "sizes"
 		}
 		if r.U != float64(tu)/2 {
-			return fmt.Sprintf("U(%v,%v) = %v, by definition %v", x1, x2, r.U, float64(tu)/2)
+			return fmt.Sprintf("U(%v,%v) = %v, by definition %v", x1, x2, r.U, float64(tu)/2), "statistic"
 		}
 		less, greater := d.le(tu), d.ge(tu)
 		var want float64
@@ -179,27 +212,34 @@ func c11CheckPair(x1, x2 []float64, cache *distCache) string {
 			want = math.Min(1, 2*math.Min(less, greater))
 		}
 		if !closeTo(r.P, want) {
-			return fmt.Sprintf("U-test(%v,%v,alt=%v): p=%v, exact permutation value %v (U=%v, P(U<=u)=%v, P(U>=u)=%v)", x1, x2, alt, r.P, want, r.U, less, greater)
+			return fmt.Sprintf("U-test(%v,%v,alt=%v): p=%v, exact permutation value %v (U=%v, P(U<=u)=%v, P(U>=u)=%v)", x1, x2, alt, r.P, want, r.U, less, greater), altClause(alt)
 		}
 		if r.P < 0 || r.P > 1+c11Tol {
-			return fmt.Sprintf("U-test(%v,%v,%v): p=%v outside [0,1]", x1, x2, alt, r.P)
+			return fmt.Sprintf("U-test(%v,%v,%v): p=%v outside [0,1]", x1, x2, alt, r.P), altClause(alt)
 		}
 		ps[ai] = r.P
 	}
 	if allEqual {
-		return ""
+		return "", ""
 	}
 	// Swapping the samples leaves the two-sided p unchanged and exchanges the tails.
 	for ai, alt := range []LocationHypothesis{LocationGreater, LocationDiffers, LocationLess} {
 		r, err := MannWhitneyUTest(x2, x1, alt)
 		if err != nil {
-			return fmt.Sprintf("swapped U(%v,%v): %v", x2, x1, err)
+			return fmt.Sprintf("swapped U(%v,%v): %v", x2, x1, err), "error-cases"
 		}
 		if !closeTo(r.P, ps[ai]) {
-			return fmt.Sprintf("U-test(%v,%v): swapping the samples changes p from %v to %v (alt %v)", x1, x2, ps[ai], r.P, alt)
+			return fmt.Sprintf("U-test(%v,%v): swapping the samples changes p from %v to %v (alt %v)", x1, x2, ps[ai], r.P, alt), altClause(alt)
 		}
 	}
-	return ""
+	return "", ""
+}
+
+func altClause(alt LocationHypothesis) string {
+	if alt == LocationDiffers {
+		return "two-sided"
+	}
+	return "one-sided"
 }
 
 // c11CheckDist compares UDist{n1,n2,T} pointwise with the brute-force
@@ -212,8 +252,12 @@ func c11CheckDist(x1, x2 []float64, cache *distCache, untied bool) string {
 		ud.T = nil
 	}
 	sum := 0.0
+	// The mass function lives on the distribution's own lattice: steps of 1
+	// without ties, 0.5 with ties.
+	// (UDist documents that U must be integral when there are no ties.)
+	integerLattice := untied || !ud.hasTies()
 	for tu := -2; tu <= 2*n1*n2+2; tu++ {
-		if untied && tu%2 != 0 {
+		if integerLattice && tu%2 != 0 {
 			continue
 		}
 		u := float64(tu) / 2
@@ -318,13 +362,19 @@ func c11Pairs(c *mc.Check, k, maxN int) {
 			u := units[ui]
 			x1 := sets[u.j.n1][u.i1]
 			for _, x2 := range sets[u.j.n2] {
-				var msg string
+				var msg, sig string
 				kind := "pair"
-				if p := mc.Catch(func() { msg = c11CheckPair(x1, x2, cache) }); p != "" {
-					msg = p
+				if p := mc.Catch(func() { msg, sig = c11CheckPairSig(x1, x2, cache) }); p != "" {
+					msg, sig = p, "panic"
 				}
 				tv := tieVector(x1, x2)
-				if msg == "" && len(tv) > 1 {
+				if (msg == "" || sig == "two-sided-asymmetric-ties") && len(tv) > 1 {
+					if msg != "" {
+						// recorded known finding; still check the distribution itself
+						c.Fail(f, sig, c11Case{x1, x2, kind}, msg)
+						msg = ""
+					}
+					sig = "udist"
 					kind = "dist"
 					if p := mc.Catch(func() { msg = c11CheckDist(x1, x2, cache, false) }); p != "" {
 						msg = p
@@ -342,7 +392,7 @@ func c11Pairs(c *mc.Check, k, maxN int) {
 				}
 				l.Outcome(fmt.Sprintf("ranks=%d ties=%v", min(len(tv), 4), ties))
 				if msg != "" {
-					c.Fail(f, c11Sig(tv), c11Case{x1, x2, kind}, msg)
+					c.Fail(f, sig, c11Case{x1, x2, kind}, msg)
 				}
 			}
 			if len(cache.m) > 4000 {
@@ -476,8 +526,8 @@ func c11Approx(c *mc.Check) {
 		}
 		return x
 	}
-	for _, n1 := range []int{26, 51, 60} {
-		for _, n2 := range []int{1, 26, 51, 55} {
+	for _, n1 := range []int{1, 10, 25, 26, 50, 51, 60} {
+		for _, n2 := range []int{1, 10, 25, 26, 50, 51, 55} {
 			for _, k1 := range []string{"distinct", "ties", "heavy", "equal", "inter"} {
 				for _, k2 := range []string{"distinct", "ties", "heavy", "equal"} {
 					for _, shift := range []float64{0, 0.5, 1, 30} {
@@ -560,8 +610,8 @@ var _ = strings.Join
 func TestVerifC11(t *testing.T) {
 	c := mc.NewCheck("C11")
 	c.Assume("brute-force enumeration of all assignments in exact rationals is the definition of the exact p-value")
-	c11Pairs(c, mc.Pick(c, 4, 5), mc.Pick(c, 8, 10))
-	c11Untied(c, mc.Pick(c, 6, 7))
+	c11Pairs(c, mc.Pick(c, 5, 6), mc.Pick(c, 10, 12))
+	c11Untied(c, mc.Pick(c, 7, 7))
 	c11Approx(c)
 	if code := c.Finish(); code != 0 {
 		os.Exit(code)
